@@ -48,7 +48,9 @@ var xattrObjValues = []string{
 const farExp = 2000000000 // absolute, year 2033
 const relExp = 2000000    // relative (< 30 days), ~23 days
 
-var expChoices = []uint32{0, 0, farExp, farExp + 77, relExp, relExp + 5}
+const maxRelExp = 60 * 60 * 24 * 30 // the largest offset: exactly 30 days is still relative
+
+var expChoices = []uint32{0, 0, farExp, farExp + 77, relExp, relExp + 5, maxRelExp, maxRelExp - 1}
 
 // Gen builds ops from a PRNG.
 type Gen struct {
@@ -473,6 +475,9 @@ func Variants() []Op {
 	add(Op{Kind: KIncr, Amt: 3, Def: 10})
 	add(Op{Kind: KIncr, Amt: 1, Def: 0, Exp: farExp + 10})
 	add(Op{Kind: KTouch, Exp: farExp + 11})
+	add(Op{Kind: KTouch, Exp: maxRelExp})
+	add(Op{Kind: KSet, Body: jb, Exp: maxRelExp})
+	add(Op{Kind: KAddRaw, Body: rb, Exp: maxRelExp})
 	add(Op{Kind: KTouch, Exp: 0})
 	add(Op{Kind: KGetTouch, Exp: relExp + 1})
 	add(Op{Kind: KSetX, X: xs})
